@@ -59,6 +59,10 @@ func (c *GenCtx) n(quick, thorough int) int {
 	if c.thorough() {
 		return thorough
 	}
+	// quick runs take seconds: afford three times the nominal quick budget where that stays below the thorough one
+	if 3*quick < thorough {
+		return 3 * quick
+	}
 	return quick
 }
 
@@ -456,6 +460,8 @@ func generate(c *GenCtx) []Op {
 		genRandom(c, "rand", c.n(15000, 300000), 3)
 		genProjections(c, c.n(25000, 500000))
 		genTyped(c, c.n(30000, 600000), 3)
+		genEquality(c)
+		genLet(c)
 	case "C02":
 		genArgs(c)
 		genTyped(c, c.n(20000, 400000), 3)
@@ -482,6 +488,8 @@ func generate(c *GenCtx) []Op {
 		genArgs(c)
 		genOverflow(c)
 		genRandom(c, "rand", c.n(5000, 100000), 3)
+		genLet(c)
+		genTyped(c, c.n(10000, 200000), 3)
 	case "C09":
 		genCost(c)
 	case "C10":
